@@ -78,9 +78,15 @@ def cli_of(fl):
     return a
 
 
+# sy's own files in a destination root: not part of the mirrored tree (never planned for deletion, not counted by the guard)
+SY_META = (".sy-dir-cache.json", ".sy-checksums.db", ".sy-checksums.db-journal", ".sy-state.json", ".sy-state.json.tmp")
+
+
 def dst_line(snap, ids, run_start_ns, k):
     items = []
     for rel, e in snap.items():
+        if rel in SY_META:
+            continue
         if e["kind"] == "d":
             items.append("d:%s" % ids.path(rel))
         elif e["kind"] == "f":
@@ -110,6 +116,8 @@ def run_once(sc, src, dst, fl, ids, k=1, extra_env=None, extra_args=(), select=N
             srcs.append("l:%s:0:0:0:0" % ids.path(rel))
     dsts = []
     for kind, rel, _sz in dlist:
+        if rel in SY_META:
+            continue
         e = dsnap[rel]
         if kind == "d":
             dsts.append("d:%s:%d:%d" % (ids.path(rel), e.get("size", 4096), e["mtime_ns"]))
@@ -144,10 +152,12 @@ def run_once(sc, src, dst, fl, ids, k=1, extra_env=None, extra_args=(), select=N
             summary = ev
         if t in ("create", "update", "skip", "delete"):
             rel = os.path.relpath(ev["path"], dst)
+            if rel in SY_META and t == "delete":
+                badlines += 0        # would be a deletion of sy's own metadata: kept visible through the event list
             evs.append("%s:%s" % (t, ids.path(rel)))
     refused = 1 if ("deletion threshold exceeded" in (rr["err"] + rr["out"]).lower() and rr["rc"] not in (0, None)) else 0
     # universe extras: every path that exists afterwards
-    extra = sorted(set(ids.path(rel) for rel in after) | set(ids.path(rel) for rel in ssnap))
+    extra = sorted(set(ids.path(rel) for rel in after if rel not in SY_META) | set(ids.path(rel) for rel in ssnap))
     case = "E %s %d %s %s %s" % (flags_str(fl), now_of(k), ",".join(srcs) or "-", ",".join(dsts) or "-", ",".join(extra) or "-")
     obs = "refused=%d exit=%s nerr=%d evs=%s dst=%s" % (refused, rr["rc"], nerr, ",".join(evs) or "-", dst_line(after, ids, run_start, k))
     raw = {"rc": rr["rc"], "stderr": rr["err"][-400:], "badlines": badlines, "before": dsnap, "after": after, "src": ssnap, "events": evs,
